@@ -10,9 +10,17 @@ of `stages` stages), leaves it into the post-pipeline buffer (capacity `buf`) an
 `ToVectorMem` port (capacity `cap`, at most `burst` = 16 per cycle).
 
 A transaction is its creation index. `sent` / `created` are ghosts. The model predicts in which
-cycle every transaction reaches the port — and in which ORDER: with one lane the path is a FIFO; with
-several lanes a full post-pipeline buffer stalls the lanes, `Tick` then serves them by lane number,
-and a younger transaction overtakes an older one (`Props/C14Vmu.lean`). -/
+cycle every transaction reaches the port — and in which ORDER.
+
+An Akita pipeline with several lanes does not keep the entry order: a full post-pipeline buffer
+stalls the lanes, `Tick` then serves them by lane number, and a younger transaction reaches the
+buffer before an older one. The REPAIRED unit (this model: `send`, `insertLoop`, `cycle`, `run`)
+records the entry order (`transactionsInOrder`), `sendRequest` sends the oldest transaction only, a
+younger head of the post-pipeline buffer is set aside, and while something is set aside the
+pipeline accepts nothing (`canAcceptTransaction`): the transactions leave in creation order for
+every width (`Props/C14Vmu.lean`: `vmu_fifo`, `vmu_fifo_full_all`). The unit before the repair took whatever stood
+at the head of the post-pipeline buffer: kept as `C14.Vmu.Old` (`Old.send`, … `Old.run`; a FIFO with
+one lane only, `vmu_fifo_before_fix_…_refuted`). -/
 namespace C14.Vmu
 open Util
 
@@ -42,27 +50,45 @@ structure St where
   sent : List Nat
   /-- number of transactions created so far -/
   next : Nat
+  /-- `transactionsInOrder` (repaired unit): the transactions in the pipeline, in the post-pipeline
+      buffer or set aside, in the order they entered the pipeline -/
+  inOrder : List Nat := []
+  /-- the entries of `transactionsInOrder` flagged `setAside`, in the order they were set aside;
+      `numTransactionsSetAside` is the length of this list -/
+  aside : List Nat := []
 deriving Repr, DecidableEq
 
 def St.init (c : Cfg) : St :=
   { waiting := [], stall := 0, lanes := List.replicate c.width (List.replicate c.stages none),
-    post := [], out := [], sent := [], next := 0 }
+    post := [], out := [], sent := [], next := 0, inOrder := [], aside := [] }
 
 /-- `executeFlatLoad/Store`: an instruction with `k` transactions, each with coalescing penalty `p` -/
 def issue (s : St) (k p : Nat) : St :=
   { s with waiting := s.waiting ++ (List.range k).map (fun j => (s.next + j, p)), next := s.next + k }
 
-/-- `sendRequest`: up to `n` transactions from the head of the post-pipeline buffer go to the port
-    while it has room -/
+/-- `sendRequest` (repaired): at most `n` rounds; each round looks at the OLDEST transaction of
+    `transactionsInOrder`. If it is set aside it goes to the port (if the port has room). Otherwise the
+    head of the post-pipeline buffer is inspected: the oldest transaction goes to the port, any other
+    (younger) one is popped and set aside. -/
 def send (c : Cfg) : Nat → St → St
   | 0, s => s
   | n + 1, s =>
-    match s.post with
+    match s.inOrder with
     | [] => s
-    | e :: rest =>
-      if s.out.length < c.cap then
-        send c n { s with post := rest, out := s.out ++ [e], sent := s.sent ++ [e] }
-      else s
+    | e :: older =>
+      if e ∈ s.aside then
+        if s.out.length < c.cap then
+          send c n { s with inOrder := older, aside := s.aside.erase e, out := s.out ++ [e], sent := s.sent ++ [e] }
+        else s
+      else
+        match s.post with
+        | [] => s
+        | h :: rest =>
+          if h = e then
+            if s.out.length < c.cap then
+              send c n { s with inOrder := older, post := rest, out := s.out ++ [e], sent := s.sent ++ [e] }
+            else s
+          else send c n { s with post := rest, aside := s.aside ++ [h] }
 
 /-- `Tick` on one lane, stages from the last to the first: the last stage moves its element to the
     post-pipeline buffer if that can be pushed, any other stage moves its element on if the next
@@ -94,6 +120,70 @@ def accept (e : Nat) : List (List (Option Nat)) → Option (List (List (Option N
   | (none :: tl) :: ls => some ((some e :: tl) :: ls)
   | l :: ls => (accept e ls).map (l :: ·)
 
+/-- the loop of `insertTransactionToPipeline` (at most `fuel` = all waiting transactions);
+    `canAcceptTransaction`: nothing is set aside and the pipeline can accept; an accepted transaction
+    is appended to `transactionsInOrder` -/
+def insertLoop (c : Cfg) : Nat → St → St
+  | 0, s => s
+  | fuel + 1, s =>
+    match s.waiting with
+    | [] => s
+    | (e, p) :: rest =>
+      if s.aside ≠ [] then s
+      else if c.stages = 0 then
+        -- `numStage == 0`: `CanAccept` = the post-pipeline buffer can be pushed, `Accept` pushes
+        if s.post.length < c.buf then
+          let s' := { s with waiting := rest, post := s.post ++ [e], inOrder := s.inOrder ++ [e] }
+          if p > 0 then { s' with stall := p } else insertLoop c fuel s'
+        else s
+      else
+        match accept e s.lanes with
+        | none => s
+        | some lanes =>
+          let s' := { s with waiting := rest, lanes := lanes, inOrder := s.inOrder ++ [e] }
+          if p > 0 then { s' with stall := p } else insertLoop c fuel s'
+
+/-- `insertTransactionToPipeline` -/
+def insert (c : Cfg) (s : St) : St :=
+  if s.stall > 0 then { s with stall := s.stall - 1 } else insertLoop c s.waiting.length s
+
+/-- one cycle of `VectorMemoryUnit.Run` -/
+def cycle (c : Cfg) (s : St) : St :=
+  let s1 := send c c.burst s
+  let r := tick c.buf s1.lanes s1.post
+  insert c { s1 with lanes := r.1, post := r.2 }
+
+/-- the connection takes `n` requests from the port -/
+def take (s : St) (n : Nat) : St := { s with out := s.out.drop n }
+
+inductive Op where
+  | issue (k p : Nat)
+  /-- one cycle, then the memory side takes `t` requests -/
+  | cyc (t : Nat)
+deriving Repr, DecidableEq
+
+def step (c : Cfg) (s : St) : Op → St
+  | .issue k p => issue s k p
+  | .cyc t => take (cycle c s) t
+
+def run (c : Cfg) (s : St) (ops : List Op) : St := ops.foldl (step c) s
+
+/-! ### the unit before the repair (`sendRequest` took the head of the post-pipeline buffer,
+`insertTransactionToPipeline` asked the pipeline only); `inOrder` / `aside` are not used -/
+namespace Old
+
+/-- `sendRequest`: up to `n` transactions from the head of the post-pipeline buffer go to the port
+    while it has room -/
+def send (c : Cfg) : Nat → St → St
+  | 0, s => s
+  | n + 1, s =>
+    match s.post with
+    | [] => s
+    | e :: rest =>
+      if s.out.length < c.cap then
+        send c n { s with post := rest, out := s.out ++ [e], sent := s.sent ++ [e] }
+      else s
+
 /-- the loop of `insertTransactionToPipeline` (at most `fuel` = all waiting transactions) -/
 def insertLoop (c : Cfg) : Nat → St → St
   | 0, s => s
@@ -124,28 +214,21 @@ def cycle (c : Cfg) (s : St) : St :=
   let r := tick c.buf s1.lanes s1.post
   insert c { s1 with lanes := r.1, post := r.2 }
 
-/-- the connection takes `n` requests from the port -/
-def take (s : St) (n : Nat) : St := { s with out := s.out.drop n }
-
-inductive Op where
-  | issue (k p : Nat)
-  /-- one cycle, then the memory side takes `t` requests -/
-  | cyc (t : Nat)
-deriving Repr, DecidableEq
-
 def step (c : Cfg) (s : St) : Op → St
   | .issue k p => issue s k p
   | .cyc t => take (cycle c s) t
 
 def run (c : Cfg) (s : St) (ops : List Op) : St := ops.foldl (step c) s
 
+end Old
+
 /-- transactions inside the pipeline -/
 def inPipe (s : St) : Nat := (s.lanes.map (fun l => (l.filter Option.isSome).length)).sum
 
 /-! ### `c14 vmu w=<width> n=<stages> b=<buf> cap=<cap> ; is <k> <p> ; cy <t> ; …`
 
-Answer: per `cy` the transactions put on the port in that cycle and `waiting:inPipe:post` after it,
-per `is` the index of the first transaction created; at the end the whole send order. -/
+Answer: per `cy` the transactions put on the port in that cycle and `waiting:inPipe:post:aside`
+after it, per `is` the index of the first transaction created; at the end the whole send order. -/
 
 def parseOp (toks : List String) : Option Op :=
   match toks with
@@ -168,7 +251,7 @@ def handle (toks : List String) (ops : List String) : String :=
         match op with
         | .issue _ _ => (s', acc.2.push s!"i{s.next}")
         | .cyc _ =>
-          (s', acc.2.push s!"{idsDot (s'.sent.drop s.sent.length)}/{s'.waiting.length}:{inPipe s'}:{s'.post.length}"))
+          (s', acc.2.push s!"{idsDot (s'.sent.drop s.sent.length)}/{s'.waiting.length}:{inPipe s'}:{s'.post.length}:{s'.aside.length}"))
       (St.init c, #[])
     joinWith " " (r.2.toList ++ ["sent=" ++ idsDot r.1.sent])
   | _, _, _, _ => "bad"
